@@ -10,7 +10,9 @@ QH = os.path.join(BIN, "qh")
 EXTRACT = os.path.join(BIN, "extract")
 # (binary, generated Lean file, its namespace, json summary); order matters: TransCron.lean imports Trans.lean
 TRANSLATORS = [("gotolean", "Trans.lean", "Generated.Trans", "trans.json"),
-               ("gotolean-cron", "TransCron.lean", "Generated.TransCron", "trans_cron.json")]
+               ("gotolean-cron", "TransCron.lean", "Generated.TransCron", "trans_cron.json"),
+               # quartz/queue.go, job_key.go, matcher/*.go AND the toolchain's container/heap/heap.go
+               ("gotolean-queue", "TransQueue.lean", "Generated.TransQueue", "trans_queue.json")]
 QMODEL = os.path.join(LEAN, ".lake", "build", "bin", "qmodel")
 GOENV = dict(os.environ, GOFLAGS="-mod=mod", GOPROXY="off", GOSUMDB="off", GOTOOLCHAIN="local",
              CGO_ENABLED=os.environ.get("CGO_ENABLED", "0"))
